@@ -7,6 +7,7 @@ package main
 
 import (
 	"bytes"
+	"encoding/binary"
 	"encoding/hex"
 	"fmt"
 	"runtime"
@@ -98,6 +99,103 @@ func pairUniverse(c *hx.Ctx) [][2][]byte {
 	return u
 }
 
+// cat concatenates byte strings into a fresh slice.
+func cat(parts ...[]byte) []byte {
+	var o []byte
+	for _, p := range parts {
+		o = append(o, p...)
+	}
+	if o == nil {
+		o = []byte{}
+	}
+	return o
+}
+
+// lengthFramings returns the encodings of n a hash input could plausibly use
+// as a length prefix: uvarint, one byte, 2/4/8 bytes big- and little-endian.
+func lengthFramings(n int) [][]byte {
+	out := [][]byte{binary.AppendUvarint(nil, uint64(n)), {byte(n)}}
+	for _, w := range []int{2, 4, 8} {
+		be, le := make([]byte, w), make([]byte, w)
+		for i := 0; i < w; i++ {
+			le[i] = byte(uint64(n) >> (8 * uint(i)))
+			be[w-1-i] = le[i]
+		}
+		out = append(out, be, le)
+	}
+	return out
+}
+
+// injections returns (pid, ctx) pairs that EMBED, in their own bytes, the
+// framing a hash input for (P, C) could use: length prefixes of P (and of C)
+// and separators, with the whole input as a context-less protocol id, as a
+// pid-less context, and with the boundary moved; plus the empty-field and
+// nil-vs-empty variants. Any framing that is skipped or ambiguous for some
+// shape of input (empty context, empty id, ...) makes one of them collide
+// with (P, C).
+func injections(c *hx.Ctx, P, C []byte) (out [][2][]byte, core int) {
+	add := func(pid, ctx []byte) { out = append(out, [2][]byte{pid, ctx}) }
+	whole := func(b []byte) {
+		add(b, nil)
+		add(b, []byte{})
+		add([]byte{}, b)
+		if len(b) > 1 {
+			k := 1 + c.Rng.Intn(len(b)-1)
+			add(b[:k:k], b[k:])
+		}
+	}
+	prefixed := func(f []byte) {
+		whole(cat(f, P, C))
+		add(cat(f, P), C)
+		add(f, cat(P, C))
+		add(P, cat(f, C))
+	}
+	// core: the most plausible framings (uvarint / one-byte length of P,
+	// separators) and the empty-field variants; always generated
+	lf := lengthFramings(len(P))
+	for _, f := range lf[:2] {
+		prefixed(f)
+	}
+	for _, sep := range [][]byte{{0}, {0xff}, {'/'}, {':'}, {0, 0}} {
+		whole(cat(P, sep, C))
+		add(P, cat(sep, C))
+		add(cat(P, sep), C)
+	}
+	whole(cat(P, C))
+	add(P, nil)
+	add(P, []byte{})
+	add([]byte{}, C)
+	add(nil, C)
+	add([]byte{}, []byte{})
+	add(nil, nil)
+	add(C, P)
+	core = len(out)
+	// extended: wider length prefixes, and a length prefix on the context too
+	for _, f := range lf[2:] {
+		prefixed(f)
+	}
+	for _, f := range lf {
+		for _, g := range lengthFramings(len(C))[:2] {
+			whole(cat(f, P, g, C))
+			add(P, cat(g, C))
+			add(cat(P, g), C)
+		}
+	}
+	return out, core
+}
+
+// injectionBases: (P, C) pairs around which the injection families are built;
+// one has a 47-byte printable id, whose uvarint length prefix is the byte '/'.
+func injectionBases(c *hx.Ctx) [][2][]byte {
+	return [][2][]byte{
+		{[]byte("dex/a"), []byte("b")},
+		{[]byte("aperture/bifrost/kvstore/replicate/bucket/sync1"), []byte("/tenant-7")},
+		{[]byte("abc"), {}},
+		{{}, []byte("x")},
+		{c.RandBytes(1 + c.Rng.Intn(5)), c.RandBytes(1 + c.Rng.Intn(4))},
+	}
+}
+
 func admitsGo(s solSpec, remote []byte, tpt uint64) bool {
 	if len(s.peer) != 0 && !bytes.Equal(s.peer, remote) {
 		return false
@@ -136,6 +234,17 @@ func genSols(c *hx.Ctx, pool [][2][]byte, n int, remote, other []byte, tpt uint6
 }
 
 func smallPool(c *hx.Ctx, uni [][2][]byte) [][2][]byte {
+	if c.Rng.Intn(3) == 0 {
+		// a base pair, a few pairs that embed its possible framings, one unrelated pair
+		bases := injectionBases(c)
+		b := bases[c.Rng.Intn(len(bases))]
+		inj, _ := injections(c, b[0], b[1])
+		pool := [][2][]byte{b, b}
+		for i := 0; i < 6; i++ {
+			pool = append(pool, inj[c.Rng.Intn(len(inj))])
+		}
+		return append(pool, uni[c.Rng.Intn(len(uni))])
+	}
 	// a base string with all its splits plus a couple of unrelated pairs
 	s := []byte(baseStrings[c.Rng.Intn(len(baseStrings))])
 	if c.Rng.Intn(3) == 0 {
@@ -173,7 +282,7 @@ func c30(c *hx.Ctx) {
 	uni := pairUniverse(c)
 
 	// 1. hash equality pattern
-	nPH := c.N / 2
+	nPH := c.N / 4
 	sweep := 0
 	for i := 0; i < nPH; i++ {
 		a, b, _ := twoPeers(c)
@@ -200,32 +309,24 @@ func c30(c *hx.Ctx) {
 		case 1:
 			a2, b2, _ = twoPeers(c)
 		}
-		s1 := link_solicit.ComputeSessionID(peer.ID(a), peer.ID(b))
-		s2 := link_solicit.ComputeSessionID(peer.ID(a2), peer.ID(b2))
-		h1 := link_solicit.ComputeProtocolHash(s1, protocol.ID(p[0]), p[1])
-		h2 := link_solicit.ComputeProtocolHash(s2, protocol.ID(q[0]), q[1])
-		eq := bytes.Equal(h1, h2)
-		desc := map[string]any{"kind": "hash", "peers1": []string{hx.Hex(a), hx.Hex(b)}, "pid1": hx.Hex(p[0]), "ctx1": hx.Hex(p[1]),
-			"peers2": []string{hx.Hex(a2), hx.Hex(b2)}, "pid2": hx.Hex(q[0]), "ctx2": hx.Hex(q[1]), "equal": eq}
-		c.Case(hx.App("PH", hx.Bytes(a), hx.Bytes(b), hx.Bytes(p[0]), hx.Bytes(p[1]), hx.Bytes(a2), hx.Bytes(b2), hx.Bytes(q[0]), hx.Bytes(q[1]), hx.Bool(eq)), desc)
-		c.Class("hash")
-		same := bytes.Equal(p[0], q[0]) && bytes.Equal(p[1], q[1])
-		sameSid := bytes.Equal(s1, s2)
-		if eq {
-			c.Nontrivial("ph" + fmt.Sprint(desc))
-		}
-		if eq && sameSid && !same {
-			key := "hash-equal-for-different-solicitations"
-			if bytes.Equal(append(append([]byte{}, p[0]...), p[1]...), append(append([]byte{}, q[0]...), q[1]...)) {
-				key = "hash-ignores-id-context-boundary"
+		hashCase(c, "hash", a, b, p, a2, b2, q)
+	}
+
+	// 1b. encoding injection: (P, C) against pairs whose own bytes contain the
+	// framing of (P, C); one session id
+	for bi, base := range injectionBases(c) {
+		inj, core := injections(c, base[0], base[1])
+		a, b, _ := twoPeers(c)
+		for vi, v := range inj {
+			// quick tier: the core variants in full, a sixth of the extended ones
+			if c.Tier != "thorough" && vi >= core && (vi+bi+int(c.Seed))%6 != 0 {
+				continue
 			}
-			c.Failf(key, desc, "ComputeProtocolHash gives the same hash for (%q,%q) and (%q,%q)", p[0], p[1], q[0], q[1])
+			hashCase(c, "hash-injection", a, b, base, a, b, v)
 		}
-		if !eq && sameSid && same {
-			c.Failf("hash-differs-for-identical-solicitations", desc, "ComputeProtocolHash differs for identical inputs")
-		}
-		if len(h1) != link_solicit.HashSize {
-			c.Failf("hash-size", desc, "hash has %d bytes", len(h1))
+		// and some pairs inside the family
+		for k := 0; k < 6; k++ {
+			hashCase(c, "hash-injection", a, b, inj[c.Rng.Intn(len(inj))], b, a, inj[c.Rng.Intn(len(inj))])
 		}
 	}
 
@@ -244,6 +345,39 @@ func c30(c *hx.Ctx) {
 		twoNodes(c, uni)
 	}
 	lateDuplicate(c)
+}
+
+// hashCase runs the real hash functions on two (peer pair, pid, ctx) inputs,
+// emits the equality pattern as a case and applies the oracle from the
+// property text: for one session id the hashes are equal iff pid and ctx are.
+func hashCase(c *hx.Ctx, class string, a, b []byte, p [2][]byte, a2, b2 []byte, q [2][]byte) {
+	s1 := link_solicit.ComputeSessionID(peer.ID(a), peer.ID(b))
+	s2 := link_solicit.ComputeSessionID(peer.ID(a2), peer.ID(b2))
+	h1 := link_solicit.ComputeProtocolHash(s1, protocol.ID(p[0]), p[1])
+	h2 := link_solicit.ComputeProtocolHash(s2, protocol.ID(q[0]), q[1])
+	eq := bytes.Equal(h1, h2)
+	desc := map[string]any{"kind": "hash", "peers1": []string{hx.Hex(a), hx.Hex(b)}, "pid1": hx.Hex(p[0]), "ctx1": hx.Hex(p[1]),
+		"peers2": []string{hx.Hex(a2), hx.Hex(b2)}, "pid2": hx.Hex(q[0]), "ctx2": hx.Hex(q[1]), "equal": eq}
+	c.Case(hx.App("PH", hx.Bytes(a), hx.Bytes(b), hx.Bytes(p[0]), hx.Bytes(p[1]), hx.Bytes(a2), hx.Bytes(b2), hx.Bytes(q[0]), hx.Bytes(q[1]), hx.Bool(eq)), desc)
+	c.Class(class)
+	same := bytes.Equal(p[0], q[0]) && bytes.Equal(p[1], q[1])
+	sameSid := bytes.Equal(s1, s2)
+	if eq {
+		c.Nontrivial("ph" + fmt.Sprint(desc))
+	}
+	if eq && sameSid && !same {
+		key := "hash-equal-for-different-solicitations"
+		if bytes.Equal(append(append([]byte{}, p[0]...), p[1]...), append(append([]byte{}, q[0]...), q[1]...)) {
+			key = "hash-ignores-id-context-boundary"
+		}
+		c.Failf(key, desc, "ComputeProtocolHash gives the same hash for (%q,%q) and (%q,%q)", p[0], p[1], q[0], q[1])
+	}
+	if !eq && sameSid && same {
+		c.Failf("hash-differs-for-identical-solicitations", desc, "ComputeProtocolHash differs for identical inputs")
+	}
+	if len(h1) != link_solicit.HashSize {
+		c.Failf("hash-size", desc, "hash has %d bytes", len(h1))
+	}
 }
 
 // incoming runs one controller with solicitations and delivers one incoming
